@@ -8,7 +8,7 @@ from genjax import ChoiceMapBuilder as C
 from genjax import Target
 from tensorflow_probability.substrates import jax as tfp
 
-from verif.engine import Ob
+from verif.engine import Ob, with_distinct_draw_keys
 
 tfd = tfp.distributions
 
@@ -155,8 +155,18 @@ def obligations(tier, seed):
 
         return g, jax.grad(loss)(th)
 
+    def replay_keys(args):
+        """real code: the two recorded noise values must differ (same key => identical draws)"""
+        with record_normals() as rec:
+            genjax.vi.ELBO(guide2, lambda a, s, c: Target(model2, (a, s, c), C["v"].set(args[2])))(args[0], args[1])
+        same = bool(jnp.all(rec[0] == rec[1]))
+        return same, f"noise of site 1 = {jnp.ravel(rec[0])}, noise of site 2 = {jnp.ravel(rec[1])}"
+
     obs.append(Ob("C30/ELBO/two-site-guide", elbo2, (KEY, (F(0.4), F(0.8), F(0.5)), F(1.3)), assume=dom, mode="exact", timeout_s=60,
                   note="two dependent reparameterised sites: ELBO gradient == pathwise gradient at the drawn noise"))
+    obs.append(Ob("C30/ELBO/two-site-guide/independent-noise", elbo2, (KEY, (F(0.4), F(0.8), F(0.5)), F(1.3)), assume=dom, mode="exact", timeout_s=60,
+                  custom=with_distinct_draw_keys(("normal",), 2), replay=replay_keys,
+                  note="the two sites' noise draws use distinct PRNG keys (independent draws): otherwise the expectation of the estimator is the gradient of a different objective"))
 
     # ---------------- IWELBO
     for N in (1, 2):
